@@ -67,6 +67,9 @@ DiffProps(d, ev) ==
 PathProps(d, ev) == IF d[1] \in {"wrk", "bcn"} /\ d[2] = "ch" THEN (IF Len(d) >= 4 THEN ChFieldProps(d[4]) ELSE {"C09"})
                     ELSE DiffProps(d, ev)
 
+\* an import after which a registration reads records it did not hold before is one entity reading another one's storage
+ImportAliasProps(d) == IF d[1] \in {"wrk", "bcn"} /\ d[2] = "ch" /\ Len(d) >= 4 /\ d[4] \in {"recs", "iter"} THEN {"C18"} ELSE {}
+
 (* L1: property monitors on one observed state *)
 StateMonitors(o) ==
   { <<"C02", "SumBalEqualsSupply">> : x \in { d \in Denoms : o.sumBal[d] # o.supply[d] } }
@@ -164,7 +167,7 @@ Judge(i) ==
              ELSE IF ev.a = "ExportImport" THEN (IF ImportSucceeds(pre) THEN Ok(ImportExport(pre)) ELSE Panic(pre))
              ELSE Step(pre, ev.args)
       evm == ev.args @@ [a |-> ev.a]
-  IN UNION { Tag(i, "L2", (IF ev.a = "Restart" THEN {"C01"} ELSE IF ev.a = "ExportImport" THEN {"C15"} \cup PathProps(d, ev) ELSE PathProps(d, ev)), d)
+  IN UNION { Tag(i, "L2", (IF ev.a = "Restart" THEN {"C01"} ELSE IF ev.a = "ExportImport" THEN {"C15"} \cup PathProps(d, ev) \cup ImportAliasProps(d) ELSE PathProps(d, ev)), d)
                : d \in (IF ev.a = "ExportImport" /\ ~ev.res.ok THEN {} ELSE StateDiff(exp.st, ev.post)) }
      \cup (IF ev.a = "ExportImport"
            THEN (IF ~ev.res.exportOk THEN {<<i, "L1", "C15", "ExportFailed">>} ELSE {})
